@@ -331,3 +331,19 @@ class CanaryCls:
 
   def __init__(self, *args, **kwargs):
     CANARY_CALLS.append(('CanaryCls', args, kwargs))
+
+
+# --- annotation tags (C14) ----------------------------------------------------
+from harness.vuni import tags as _vt  # noqa: E402  pylint: disable=wrong-import-position
+
+
+def annotated_fn(x: typing.Annotated[typing.Any, _vt.TagA] = None,
+                 y: typing.Annotated[typing.Any, _vt.TagC] = 'd_y',
+                 child: typing.Any = None):
+  return record('annotated_fn', {'x': x, 'y': y, 'child': child})
+
+
+def annotated_po(p0: typing.Annotated[typing.Any, _vt.TagB] = 'd_p0', /,
+                 a: typing.Annotated[typing.Any, _vt.TagX] = None, *args,
+                 k: typing.Annotated[typing.Any, _vt.TagA] = 'd_k', **kw):
+  return record('annotated_po', {'p0': p0, 'a': a, 'k': k}, args, kw)
